@@ -89,6 +89,20 @@ Proof.
   - rewrite <- E. now apply split3_parts.
 Qed.
 
+(* Load's self-heal compaction by a chronicler that has no name of its own, or the same name as
+   the file: whatever the live entries and flush decisions, the rewritten file is V3 and is
+   found under the name the old file carried *)
+Theorem selfheal_keeps_name hm cname fname live st' rs f :
+  cname = [] \/ cname = fname ->
+  brun compress true init (selfheal_ops cname fname live) = (st', ROk :: rs) -> s_file st' = Some f ->
+  f_ver f = Version3 /\ read_swamp_name (render hm f) = Some fname /\
+  (fname <> [] -> scan_name (render hm f) = Some fname).
+Proof.
+  intros Hc. assert (Ha : adopt_name cname fname = fname).
+  { destruct Hc as [-> | ->]; [reflexivity | now destruct fname]. }
+  unfold selfheal_ops. rewrite Ha. apply name_roundtrip.
+Qed.
+
 End C29.
 
 (* An over-long name never produces a file *)
